@@ -153,6 +153,88 @@ theorem sf_sum (f : G → ℂ) (hf : energy f ≠ 0) :
   rw [← Finset.sum_div, Finset.sum_erase_eq_sub (Finset.mem_univ _), parseval, hz]
   field_simp
 
+/-! ### plane waves: the spectrum is two equal peaks at ± the wave vector (used by C17) -/
+
+omit [DecidableEq G] in
+/-- DFT of a single character: `N` at that character, 0 elsewhere (orthogonality of characters) -/
+theorem dft_char (χ ψ : AddChar G ℂ) :
+    dft (fun g => χ g) ψ = if χ = ψ then (Fintype.card G : ℂ) else 0 := by
+  unfold dft
+  have h : ∀ g, χ g * ψ (-g) = (χ * ψ⁻¹) g := by
+    intro g; rw [AddChar.mul_apply, AddChar.inv_apply]
+  simp_rw [h]
+  rw [AddChar.sum_eq_ite]
+  by_cases hc : χ = ψ
+  · subst hc; simp [← AddChar.one_eq_zero]
+  · have : χ * ψ⁻¹ ≠ 0 := by
+      intro h0
+      apply hc
+      have : χ * ψ⁻¹ = 1 := h0
+      exact mul_inv_eq_one.mp this
+    simp [hc, this]
+
+omit [DecidableEq G] in
+theorem dft_add (f h : G → ℂ) (ψ : AddChar G ℂ) : dft (fun g => f g + h g) ψ = dft f ψ + dft h ψ := by
+  unfold dft; rw [← Finset.sum_add_distrib]; apply Finset.sum_congr rfl; intro g _; ring
+
+omit [DecidableEq G] in
+theorem dft_smul (c : ℂ) (f : G → ℂ) (ψ : AddChar G ℂ) : dft (fun g => c * f g) ψ = c * dft f ψ := by
+  unfold dft; rw [Finset.mul_sum]; apply Finset.sum_congr rfl; intro g _; ring
+
+/-- a real plane wave with complex amplitude `a` (modulus = half the amplitude, argument = phase) along the wave vector `χ₀`,
+on a constant offset `c`:  `f(g) = a χ₀(g) + conj a · χ₀(−g) + c = 2|a| cos(k₀·g + arg a) + c` -/
+noncomputable def planeWave (a : ℂ) (χ₀ : AddChar G ℂ) (c : ℂ) (g : G) : ℂ := a * χ₀ g + conj a * χ₀⁻¹ g + c
+
+omit [DecidableEq G] in
+theorem dft_planeWave (a : ℂ) (χ₀ : AddChar G ℂ) (c : ℂ) (ψ : AddChar G ℂ) :
+    dft (planeWave a χ₀ c) ψ = (Fintype.card G : ℂ) *
+      ((if χ₀ = ψ then a else 0) + (if χ₀⁻¹ = ψ then conj a else 0) + (if ψ = 0 then c else 0)) := by
+  have hc : dft (fun _ : G => c) ψ = if ψ = 0 then (Fintype.card G : ℂ) * c else 0 := by
+    have h1 : dft (fun _ : G => c) ψ = c * dft (fun g => (0 : AddChar G ℂ) g) ψ := by
+      rw [← dft_smul]; simp
+    rw [h1, dft_char]
+    by_cases h : ψ = 0
+    · subst h; simp [mul_comm]
+    · simp [h, Ne.symm h]
+  have : planeWave a χ₀ c = fun g => (a * χ₀ g + conj a * χ₀⁻¹ g) + c := rfl
+  rw [this, dft_add, dft_add, dft_smul, dft_smul, dft_char, dft_char, hc]
+  split_ifs <;> ring
+
+/-- **The spectrum of a plane wave is supported on ± its wave vector**: every other non-zero wave vector carries nothing -/
+theorem plane_wave_support (a : ℂ) (χ₀ : AddChar G ℂ) (c : ℂ) (ψ : AddChar G ℂ) (h0 : ψ ≠ 0) (h1 : ψ ≠ χ₀) (h2 : ψ ≠ χ₀⁻¹) :
+    sf (planeWave a χ₀ c) ψ = 0 := by
+  unfold sf
+  rw [dft_planeWave]
+  simp [h0, Ne.symm h1, Ne.symm h2]
+
+/-- the two peaks have the same height `|a|² N / Σ f²`, positive for a non-trivial wave -/
+theorem plane_wave_peaks (a : ℂ) (χ₀ : AddChar G ℂ) (c : ℂ) (hχ : χ₀ ≠ 0) (hne : χ₀ ≠ χ₀⁻¹) :
+    sf (planeWave a χ₀ c) χ₀ = ‖a‖ ^ 2 * (Fintype.card G : ℝ) / energy (planeWave a χ₀ c) ∧
+    sf (planeWave a χ₀ c) χ₀⁻¹ = sf (planeWave a χ₀ c) χ₀ := by
+  have hN : (Fintype.card G : ℝ) ≠ 0 := by exact_mod_cast Fintype.card_ne_zero
+  have hinv0 : χ₀⁻¹ ≠ 0 := by
+    intro h; apply hχ; have : χ₀⁻¹ = 1 := h; exact inv_eq_one.mp this
+  constructor
+  · unfold sf
+    rw [dft_planeWave]
+    simp only [if_true, hχ, if_false, Ne.symm hne, add_zero, norm_mul, Complex.norm_natCast]
+    by_cases hE : energy (planeWave a χ₀ c) = 0
+    · simp [hE]
+    · field_simp
+  · unfold sf
+    rw [dft_planeWave, dft_planeWave]
+    simp [hχ, hinv0, hne, Ne.symm hne]
+
+
+omit [DecidableEq G] in
+/-- the plane wave is a REAL field when the offset is real (so it is in the domain of the property) -/
+theorem planeWave_real (a : ℂ) (χ₀ : AddChar G ℂ) (c : ℝ) (g : G) :
+    conj (planeWave a χ₀ (c : ℂ) g) = planeWave a χ₀ (c : ℂ) g := by
+  unfold planeWave
+  simp only [map_add, map_mul, Complex.conj_conj, Complex.conj_ofReal, AddChar.inv_apply]
+  rw [← AddChar.map_neg_eq_conj, ← AddChar.map_neg_eq_conj, neg_neg]
+  ring
+
 /-! ### wave numbers: `2π · fftfreq(n, d = dx)`, i.e. `2π m / (n dx)` with `m` the centred representative -/
 
 /-- `np.fft.fftfreq(n)[j] · n`: the representative of `j` in `(−n/2, n/2]`-ish, as numpy chooses it -/
@@ -180,6 +262,12 @@ theorem k_is_dft_wavenumber (n j : ℕ) (dx : ℝ) (hn : n ≠ 0) (hd : dx ≠ 0
   have : (n : ℝ) ≠ 0 := by exact_mod_cast hn
   have := Real.pi_ne_zero
   field_simp
+
+/-- the wave numbers of `ψ` and `ψ⁻¹` have opposite representatives (hence equal modulus), except at the Nyquist index of an even axis -/
+theorem fftRep_neg (n j : ℕ) (_hj : 0 < j) (hjn : j < n) (hny : 2 * j ≠ n) : fftRep n (n - j) = - fftRep n j := by
+  unfold fftRep
+  have h2 : n % 2 = 0 ∨ n % 2 = 1 := Nat.mod_two_eq_zero_or_one n
+  split_ifs <;> push_cast [Nat.cast_sub hjn.le] <;> omega
 
 /-! ### option logic of `get_structure_factor` (for every smoother) -/
 
